@@ -737,8 +737,11 @@ class MyPyAstVisitor:
         unanalyzed_type: mp_types.Type | None,
         is_static: bool = True,
     ) -> list[Attribute]:
-        assert isinstance(lvalue, mp_nodes.NameExpr | mp_nodes.MemberExpr | mp_nodes.TupleExpr)
         attributes: list[Attribute] = []
+
+        # Other assignment targets, e.g. "self.data[key] = value", do not define attributes
+        if not isinstance(lvalue, mp_nodes.NameExpr | mp_nodes.MemberExpr | mp_nodes.TupleExpr):
+            return attributes
 
         if hasattr(lvalue, "name"):
             if self._is_attribute_already_defined(lvalue.name):
